@@ -395,6 +395,47 @@ def wiring_violation(real, d, nu, gam, hh, fr, M, ids):
     if list(r[3]) != list(ids) or r[2] != 0.125 or r[9] != 7.5: return 'T / theta0 / deme_ids'
     return None
 
+def k_classify(chk, ctx, rng, n):
+    """the model of the demes library's `discrete_demographic_events()` (`classifyEvents`, hand-written from the library's source) vs the
+    library itself: random histories, augmented graphs (frozen branches), graphs exported from random dadi programs (every deme renamed
+    at every Split record); the children of a split are compared as sets (the library builds them from a set)"""
+    dadi = ctx['dadi']; drv = ctx['driver']; D = dadi.Demes.Demes
+    from .c16 import resolve, output_with_record
+    def canon(tok):
+        p = tok.split('@')
+        if p[1] == 'split': p[3] = '+'.join(sorted(p[3].split('+')))
+        return '@'.join(p)
+    def one(g, kind, inp):
+        N = G.Names([d.name for d in g.demes])
+        real = G.lib_events(g, N)
+        ans = drv.ask('c16g classify %s' % G.enc_graph(g.asdict(), N))
+        if not ans.startswith('ok '):
+            chk.k_bad('classify', inp, real, ans[:300], 'model error'); return
+        a = [] if real == '_' else [canon(x) for x in real.split(';')]
+        b = [] if ans.split()[1] == '_' else [canon(x) for x in ans.split()[1].split(';')]
+        ok = len(a) == len(b) and all(G.event_tokens_equal(x, y) for x, y in zip(a, b))
+        (chk.k_ok('classify') if ok else chk.k_bad('classify', inp, real, ans[:600], 'discrete events differ'))
+        chk.stat('K-classify:' + kind)
+        for x in a: chk.stat('K-classify:event:' + x.split('@')[1])
+    for it in range(n):
+        h = S.History(rng, max_live=5, want_ancient=(it % 2 == 0), small_Ne=(it % 2 == 0))
+        gd = h.graph_dict(); g0 = resolve(gd)
+        one(g0, 'history', dict(graph=common.jsonable(gd)))
+        sd = [a for a, _ in h.samples]; ts = [t for _, t in h.samples]
+        if any(t > 0 for t in ts):
+            try:
+                g1, _, _ = D._augment_with_ancient_samples(g0, list(sd), list(ts))
+                one(g1, 'augmented', dict(graph=common.jsonable(gd), samples=[list(x) for x in h.samples]))
+            except Exception:
+                chk.k_skipped += 1
+        ops, d = S.random_program(rng, max_pops=int(rng.choice([2, 3, 4, 5])), p_reorder=0.45, clean=(it % 3 != 0))
+        try:
+            S.run_program(dadi, ops, 5)
+            g2, _ = output_with_record(dadi, Nref=1000.0)
+        except Exception:
+            chk.k_skipped += 1; chk.stat('K-classify:export-raises'); continue
+        one(g2, 'exported', dict(ops=common.jsonable(ops)))
+
 def replay_case(chk, ctx, inp):
     dadi = ctx['dadi']
     from .c16 import resolve, dec
